@@ -25,6 +25,9 @@ CANDIDATES = ["beers", "burgers", "call", "lunch", "with", "john", "milk", "buy"
 # words that BEGIN like the tail of a pattern (ordinal suffix, am/pm, uhr/h): inert by the same test, placed directly behind the expression
 HAZARD_SUFFIX_WORDS = ["stars", "stew", "thx", "rdx", "ndx", "pmx", "amx", "terrace", "tennis", "hat", "uhrwerk", "hx", "amber", "pmo"]
 
+# words that END like an optional leading word of a pattern ((a |one )quarter, (very )late, (not )before, (right |just )now, (genau )jetzt), placed directly in front
+HAZARD_PREFIX_WORDS = ["every", "knot", "pizza", "bright", "adjust", "ungenau", "phone", "extra", "cannot"]
+
 _pool = None
 
 
@@ -62,6 +65,7 @@ def plan(tier, seed):
     m = lib()[2]
     from ctparse import rule as RU
 
+    hazard_pre = [w for w in HAZARD_PREFIX_WORDS if not m._match_regex(w, RU._regex) and not m._match_regex("x " + w + " y", RU._regex)]
     hazard = [w for w in HAZARD_SUFFIX_WORDS if not m._match_regex(w, RU._regex) and not m._match_regex("x " + w + " y", RU._regex)]
 
     def gen():
@@ -75,8 +79,10 @@ def plan(tier, seed):
                 for hw in hazard:
                     yield (expr, ts, latent, (), (hw,))
                     yield (expr, ts, latent, (pool[0],), (hw, pool[3]))
+                for hw in hazard_pre:
+                    yield (expr, ts, latent, (hw,), ())
 
-    space = {"expressions": len(exprs), "prefix_suffix_combinations": 15, "latent": 2, "inert_pool": pool, "hazard_suffix_words": hazard, "candidates": len(CANDIDATES)}
+    space = {"expressions": len(exprs), "prefix_suffix_combinations": 15, "latent": 2, "inert_pool": pool, "hazard_suffix_words": hazard, "hazard_prefix_words": hazard_pre, "candidates": len(CANDIDATES)}
     return {"space": space, "cases": gen(), "chunk": 64, "hash_distinct": True}
 
 
@@ -116,10 +122,13 @@ def run_case(case):
     for w in reversed(suf):
         ranges.append((pos - len(w), pos))
         pos -= len(w) + 1
+    # A filler word that a pattern match covers COMPLETELY in the assembled text is not inert there ('days' behind a number, 'st' behind a day):
+    # nothing to judge.  A match that merely bites into a filler word (ends or starts strictly inside it: 'every' + 'late evening' read as
+    # 'very late evening', '8 st'+'ars') does not make the word a time word - the case is judged.
     for rm in m._match_regex(norm, RU._regex):
         for a, b in ranges:
-            if rm.mstart < b and rm.mend > a:
-                return {"o": "not-inert", "skip": "a pattern match touches a filler word in the assembled text", "nt": False}
+            if rm.mstart <= a and rm.mend >= b:
+                return {"o": "not-inert", "skip": "a pattern match covers a whole filler word in the assembled text", "nt": False}
     r = parse(text, ts, latent_time=latent)
     got_o = obs(r.resolution)
     v = []
